@@ -4,6 +4,9 @@ import (
 	"encoding/hex"
 	"fmt"
 	"math/bits"
+	"os"
+	"path/filepath"
+	"strings"
 	"sync"
 
 	"github.com/koron-go/z80/verif/ref"
@@ -151,12 +154,54 @@ func zexRunCase(rec *ZexRecord) (crc uint32, steps int64, err error) {
 	return
 }
 
+// prelimSelfTest runs the pinned "preliminary Z80 tests" program (prelim.cim:
+// jumps, calls, returns, stack, conditions, loads, exchanges, IX/IY, written for
+// real hardware) on the reference model alone with a two-function BDOS stub; it
+// must print "Preliminary tests complete".
+func prelimSelfTest() (steps int64, err error) {
+	img, rerr := os.ReadFile(filepath.Join(pinsDir(), "prelim.cim"))
+	if rerr != nil {
+		return 0, rerr
+	}
+	mem := &flatMem{}
+	copy(mem.d[0x0100:], img)
+	mem.d[0x0000] = 0x76 // warm boot: HALT
+	mem.d[0x0005] = 0xc9 // BDOS entry: intercepted below, then RET
+	mem.d[0x0006], mem.d[0x0007] = 0x00, 0xf0
+	cpu := &ref.CPU{Mem: mem, PC: 0x0100}
+	var out []byte
+	for steps = 0; steps < 2_000_000; steps++ {
+		if cpu.PC == 0x0005 {
+			switch cpu.C {
+			case 2:
+				out = append(out, cpu.E)
+			case 9:
+				for a := cpu.DE(); mem.d[a] != '$' && len(out) < 4096; a++ {
+					out = append(out, mem.d[a])
+				}
+			}
+		}
+		info := cpu.Step()
+		if !info.InScope {
+			return steps, fmt.Errorf("prelim: out-of-scope encoding at %04X", cpu.PC)
+		}
+		if info.Halt {
+			break
+		}
+	}
+	if !strings.Contains(string(out), "Preliminary tests complete") {
+		return steps, fmt.Errorf("prelim: model printed %q at PC=%04X", string(out), cpu.PC)
+	}
+	return steps, nil
+}
+
 // SelfTestResult summarises the oracle self-test.
 type SelfTestResult struct {
 	Cases int
 	OK    int
 	Steps int64
 	Fails []string
+	PrelimSteps int64
 }
 
 var selfOnce sync.Once
@@ -176,6 +221,12 @@ func OracleSelfTest() SelfTestResult {
 			for i := range p.Records {
 				recs = append(recs, &p.Records[i])
 			}
+		}
+		if n, err := prelimSelfTest(); err != nil {
+			selfRes.Fails = append(selfRes.Fails, err.Error())
+			return
+		} else {
+			selfRes.PrelimSteps = n
 		}
 		var mu sync.Mutex
 		selfRes.Cases = len(recs)
@@ -203,6 +254,7 @@ func RequireOracle(c *Ctx) bool {
 	res := OracleSelfTest()
 	c.R.Set("oracle_selftest", map[string]interface{}{
 		"hardware_crc_cases": res.Cases, "reproduced": res.OK, "model_steps": res.Steps,
+		"prelim_program_completed_on_model": res.PrelimSteps > 0, "prelim_model_steps": res.PrelimSteps,
 	})
 	if res.OK != res.Cases || res.Cases != 134 {
 		for _, f := range res.Fails {
